@@ -201,10 +201,11 @@ func classifyMapRange(p *Prog, mr mapRange) (string, string) {
 	}
 	if nonSliceAcc > 0 || outerStores > 0 {
 		// E5: selection with a string tie-break
-		if hasStringOrderCompare(mr) {
-			ok, why := selectionIsTotalOrder(p, mr)
-			if ok {
-				return "E5", why
+		if ok, why := selectionIsTotalOrder(p, mr); ok {
+			return "E5", why
+		} else if hasStringOrderCompare(mr) || nonSliceAcc > 0 {
+			if outerStores > 0 && nonSliceAcc == 0 && onlyMapKeyedStores(mr) {
+				return "E1", "only writes keyed by the loop key"
 			}
 			return "E4", "an element is selected across iterations, but not by a total order: " + why
 		}
